@@ -49,6 +49,11 @@ func c07Prior(kind string) *trie.SlimTrie {
 // emptyAfterReject checks that the instance answers lookups and scans as an empty trie.
 func emptyAfterReject(w *h.Worker, st *trie.SlimTrie, qs []string) string {
 	var msg string
+	// the other read APIs must at least not panic on the instance a rejected load
+	// leaves behind (what Stat reports then is not specified)
+	if p := h.Safely(func() { _ = st.String(); st.Stat(); st.Marshal() }); p != nil {
+		return fmt.Sprintf("after the rejected load, String / Stat / Marshal panics: %v", p)
+	}
 	if p := h.Safely(func() {
 		for _, q := range qs {
 			v, f := st.Get(q)
